@@ -21,6 +21,8 @@ Proof.
   - apply H; auto; left; auto.
   - apply IHF. intros a b Ha Hb. apply H; right; auto.
 Qed.
+Lemma Forall2_flp {A B} (P : A -> B -> Prop) l1 l2 : Forall2 P l1 l2 -> Forall2 (fun b a => P a b) l2 l1.
+Proof. induction 1; constructor; auto. Qed.
 Lemma Forall2_len {A B} (P : A -> B -> Prop) l1 l2 : Forall2 P l1 l2 -> length l1 = length l2.
 Proof. induction 1; simpl; auto. Qed.
 Lemma Forall2_map_same {A B C} (f : A -> C) (g : B -> C) l1 l2 :
@@ -501,4 +503,17 @@ Proof.
   assert (E2 : lookup k (rev B) = Some v).
   { apply In_lookup; [rewrite map_rev; apply NoDup_rev'; auto | apply in_rev in Hin; auto]. }
   rewrite E2. auto.
+Qed.
+
+Lemma Forall2_eq_map {A B} (f : A -> B) l l' : Forall2 (fun a b => b = f a) l l' -> l' = map f l.
+Proof. induction 1; simpl; congruence. Qed.
+Lemma nth_error_map_inv {A B} (f : A -> B) l j b : nth_error (map f l) j = Some b -> exists a, nth_error l j = Some a /\ f a = b.
+Proof.
+  rewrite nth_error_map. destruct (nth_error l j) as [a|]; simpl; intros H; [|discriminate]. inversion H. eauto.
+Qed.
+Lemma nth_ids_inv (t : table) j v : nth_error (ids t) j = Some v ->
+  exists k, nth_error (nms t) j = Some k /\ In (k, v) t.
+Proof.
+  unfold ids, nms. intros H. apply nth_error_map_inv in H. destruct H as ([k v'] & Hn & E). simpl in E. subst v'.
+  exists k. split; [rewrite nth_error_map, Hn; auto|]. apply in_rev. eapply nth_error_In; eauto.
 Qed.
